@@ -215,10 +215,45 @@ def r2_delivered_range_is_declared_range(ck, cx):
     ck.floor('R2', n, 4, 'getFrame / advanceFrame range obligations')
 
 
+
+def r4_pdu_extent(ck, cx, rule='R4'):
+    """TCP: the socket framer cuts the frame by the MBAP length field and checks nothing else, so the only thing that ties the MBAP
+    length to the PDU is the codec: decode() receives exactly the bytes the length field announced.  The length is consistent with
+    the PDU when decode() either consumes that buffer exactly -- struct.unpack(<constant format>, <the whole buffer>) raises unless
+    the sizes agree -- or lets the buffer's own length bound what it reads (loops / formats bounded by len(buffer): the extent IS the
+    content).  A decode() that reads a prefix by its own count fields and ignores the rest accepts a frame whose length field was
+    damaged or that was extended: the message is delivered (and executed) although length and PDU disagree."""
+    from ..msgtables import registered_classes
+    ck.rule(rule, 'every registered message decodes the whole buffer the MBAP length announced: exact-size struct.unpack of the un-sliced buffer, or reads bounded by len(buffer)')
+    req, rsp = registered_classes(cx)
+    n = 0
+    seen = set()
+    for k in req + rsp + [cx.idx.cls('pymodbus.pdu.ExceptionResponse')]:
+        fn = cx.idx.find_method(k, 'decode')
+        if fn is None or fn.qn in seen:
+            continue
+        seen.add(fn.qn)
+        ck.saw('functions', fn.qn)
+        par = fn.params[1] if len(fn.params) > 1 else None
+        exact = bounded = False
+        for c in ast.walk(fn.node):
+            if isinstance(c, ast.Call) and U(c.func) in ('struct.unpack', 'unpack') and len(c.args) == 2 and isinstance(c.args[1], ast.Name) and c.args[1].id == par:
+                exact = True
+            if isinstance(c, ast.Call) and isinstance(c.func, ast.Name) and c.func.id == 'len' and c.args and isinstance(c.args[0], ast.Name) and c.args[0].id == par:
+                # len(buffer) used as a loop bound / in the format / compared: the extent of the buffer takes part in decoding
+                bounded = True
+        n += 1
+        ck.ob(rule, fn.qn, 'decode() consumes exactly the announced buffer, or bounds its reads by len(buffer)', exact or bounded,
+              detail='decode-ignores-buffer-extent', loc=cx.floc(fn),
+              message='%s reads a prefix of its buffer by its own count fields and never looks at how long the buffer is: a TCP frame whose MBAP length '
+                      'field exceeds the PDU (damaged length field, or bytes of the next frame swallowed) is delivered as this message' % fn.qn)
+    ck.floor(rule, n, 40, 'decode() methods of registered messages')
+
 def run(ck, tier):
     cx = Ctx()
     ck.guard(r1_r2, ck, cx)
     ck.guard(r3_shape, ck, cx)
     ck.guard(r2_delivered_range_is_declared_range, ck, cx)
+    ck.guard(r4_pdu_extent, ck, cx)
     ck.assume('which corruptions CRC-16 / LRC detect is the mathematics of the codes and is not decided; nor is the arithmetic inside computeCRC/computeLRC beyond the constants')
     return cx.idx
